@@ -1008,7 +1008,7 @@ macro_rules! anylen {
             {
                 let t = &mut c.t;
                 let _ = &t;
-                $ghost(t);
+                ($ghost)(t);
             }
             $( c.$m($($a),*); )+
             let r: $crate::common::Rec<$n> = $crate::common::Rec::of(&c.t);
